@@ -1,0 +1,20 @@
+//go:build verif
+
+package grpcproxy
+
+// Accessor for the verification harness under /verif (build tag "verif"):
+// builds a GrpcClients value from client interfaces supplied by the harness, so
+// that the resource names the proxy sends can be observed without a network.
+// Nothing here is compiled into a normal build.
+
+import (
+	asset "github.com/buchgr/bazel-remote/v2/genproto/build/bazel/remote/asset/v1"
+	pb "github.com/buchgr/bazel-remote/v2/genproto/build/bazel/remote/execution/v2"
+	bs "google.golang.org/genproto/googleapis/bytestream"
+)
+
+// VerifClients returns a GrpcClients with the given clients.
+func VerifClients(a asset.FetchClient, b bs.ByteStreamClient, ac pb.ActionCacheClient,
+	cas pb.ContentAddressableStorageClient, cp pb.CapabilitiesClient) *GrpcClients {
+	return &GrpcClients{asset: a, bs: b, ac: ac, cas: cas, cap: cp}
+}
